@@ -289,6 +289,12 @@ func init() {
 		e := f.e
 		e.havocHeapComp(h, "E.uint8")
 		rv := e.havocVal(nm, resT).(TupleV)
+		// the output is appended to dst (append semantics): the result's capacity is at least dst's (A5/A9)
+		if dst, ok := args[2].(SliceV); ok {
+			if r, ok := rv[0].(SliceV); ok {
+				e.assume(fmt.Sprintf("(and (>= %s %s) (> %s 0))", r.C, dst.C, r.B))
+			}
+		}
 		f.setResult(in, rv)
 		return true
 	})
